@@ -1,8 +1,10 @@
 #!/venv/bin/python
 """tools/gen_pinned_api.py : write wgverif/pinned_api.json = {module: [qualified names of all module-level functions and methods]} of the tree the
 rules were written against (run once on the pinned tree + fix commits; a private function that is not listed is treated as a newly extracted helper)."""
-import ast, json, sys
+import ast, hashlib, json, sys
 from pathlib import Path
+sys.path.insert(0, "/verif")
+from wgverif.inline import body_hash
 pkg = Path("/repo/src/WallGo")
 out = {}
 for p in sorted(pkg.rglob("*.py")):
@@ -11,14 +13,14 @@ for p in sorted(pkg.rglob("*.py")):
         parts = parts[:-1]
     name = ".".join(parts)
     tree = ast.parse(p.read_text())
-    q = []
+    q = {}
     for st in tree.body:
         if isinstance(st, ast.FunctionDef):
-            q.append(st.name)
+            q[st.name] = body_hash(st)
         elif isinstance(st, ast.ClassDef):
             for m in st.body:
                 if isinstance(m, ast.FunctionDef):
-                    q.append(f"{st.name}.{m.name}")
-    out[name] = sorted(q)
+                    q[f"{st.name}.{m.name}"] = body_hash(m)
+    out[name] = q
 Path("/verif/wgverif/pinned_api.json").write_text(json.dumps(out, indent=0, sort_keys=True))
 print(sum(len(v) for v in out.values()), "functions in", len(out), "modules")
